@@ -62,6 +62,11 @@ pub struct Monitors {
     // C07
     hq_running: BTreeMap<Tid, Wid>,
     ref_crash: BTreeMap<Tid, u32>,
+    /// C07 L4: tasks that were reserved on a lost worker by a redirect while another worker was
+    /// still asked to give them back; watched until they are schedulable again
+    requeue_watch: BTreeSet<tako::TaskId>,
+    /// C08 K4: how the last execution that ended on a worker ended
+    last_end_on: BTreeMap<Wid, (EndHow, Tid)>,
     // C08
     canceled_tasks: BTreeSet<Tid>,
     // C14
@@ -265,8 +270,17 @@ impl Monitors {
                         self.count("exec.cancel_signal", 1);
                     }
                 }
-                Obs::ExecEnd { .. } => {}
+                Obs::ExecEnd { exec, how } => {
+                    let (w, t) = {
+                        let sh = sim.shared.borrow();
+                        (sh.execs[*exec].w, sh.execs[*exec].t)
+                    };
+                    self.last_end_on.insert(w, (how.clone(), t));
+                }
                 Obs::LaunchFail { .. } => self.count("launch_fail", 1),
+                // 0 = solved to optimality; 1 / 2 = the solver ran into its wall-clock limit
+                // (non-optimal placement / no placement at all): real time leaked into the run
+                Obs::Sched { result, .. } => self.count(&format!("sched.result.{result}"), 1),
                 Obs::SrvSent { w: to_w, m } => match m {
                     ToWorkerLite::Cancel(ids) => {
                         for t in ids {
@@ -601,6 +615,8 @@ impl Monitors {
             }
         }
 
+        self.check_requeue_watch(&core, step, out);
+
         // ---- C14: max-fails
         self.check_max_fails(&journal_this_step, &prev_jobs, &jobs, prev_core.as_ref(), &srv_cancel_sent, step, out);
 
@@ -647,6 +663,40 @@ impl Monitors {
                         );
                         break;
                     }
+                }
+            }
+            // K4 (C08) / S5 (C02): a worker that holds nothing has promised to take back every
+            // request it refused for lack of free resources ("soft" refusals, the ones it remembers);
+            // if the last thing that ended there was a canceled execution, the resources the
+            // canceled task released have not become usable for the tasks of other jobs
+            for w in &core.workers {
+                let wid = w.id.as_num();
+                let Some(ws) = sim.worker_snapshot(wid) else { continue };
+                if !ws.running.is_empty() || ws.prefilled.iter().any(|(_, ts)| !ts.is_empty()) {
+                    continue;
+                }
+                self.count("rest_points_idle_worker_checked_for_refused_requests", 1);
+                if ws.blocked_requests.is_empty() {
+                    continue;
+                }
+                match self.last_end_on.get(&wid) {
+                    Some((EndHow::Canceled, t)) => viol(
+                        out,
+                        step,
+                        "C08",
+                        "K4-resources-of-canceled-task-not-offered-again",
+                        format!(
+                            "at rest worker {wid} runs nothing, the last execution that ended there was the canceled task {t:?}, and the worker still refuses the requests {:?} it turned down while that task held its resources: the server was never told they can be placed there again",
+                            ws.blocked_requests
+                        ),
+                    ),
+                    other => viol(
+                        out,
+                        step,
+                        "C02",
+                        "S5-idle-worker-keeps-refusing-request",
+                        format!("at rest worker {wid} runs nothing but still refuses the requests {:?} (last execution that ended there: {other:?})", ws.blocked_requests),
+                    ),
                 }
             }
             let vnow = sim.vnow_s();
@@ -1127,6 +1177,15 @@ impl Monitors {
                 _ => {}
             }
         }
+        // L4 for a task that was only *reserved* on the lost worker (being moved there by a
+        // redirect): its fate is decided by the answer of the worker it is retracted from, so it is
+        // watched from here on (see `check_requeue_watch`)
+        for (t, to, _) in &pc.redirects {
+            if to.as_num() == w && !listed.contains(&conv::tid(*t)) {
+                self.count("loss.redirect_reserved_task", 1);
+                self.requeue_watch.insert(*t);
+            }
+        }
         // L4: tasks only queued on the worker are rescheduled without penalty
         for t in &pc.tasks {
             let id = conv::tid(t.id);
@@ -1157,6 +1216,45 @@ impl Monitors {
                     "L4-queued-task-not-rescheduled",
                     format!("loss of worker {w}: {id:?} was queued there and should be ready again but is {other:?}"),
                 ),
+            }
+        }
+    }
+
+    /// C07 L4, second half: a task that was reserved on a lost worker must become schedulable
+    /// again: as soon as it is back in the waiting state with nothing to wait for it has to be in a
+    /// ready queue, and it must not be failed for the loss.
+    fn check_requeue_watch(&mut self, core: &CoreSnapshot, step: u32, out: &mut Vec<Violation>) {
+        if self.requeue_watch.is_empty() {
+            return;
+        }
+        let watched: Vec<tako::TaskId> = self.requeue_watch.iter().copied().collect();
+        for t in watched {
+            let Some(snap) = core.tasks.iter().find(|x| x.id == t) else {
+                // canceled or finished meanwhile
+                self.requeue_watch.remove(&t);
+                continue;
+            };
+            match &snap.state {
+                TaskStateSnapshot::Retracting { .. } => {}
+                TaskStateSnapshot::Waiting { unfinished_deps: 0 } => {
+                    let in_ready = core.queues.iter().any(|q| q.ready.iter().any(|(_, ts)| ts.contains(&t)));
+                    self.count("loss.redirect_reserved_task_back_in_waiting", 1);
+                    if !in_ready {
+                        viol(
+                            out,
+                            step,
+                            "C07",
+                            "L4-queued-task-not-rescheduled",
+                            format!("{:?} was reserved on a lost worker by a redirect; it is waiting for nothing now but it is in no ready queue, so it is never scheduled again", conv::tid(t)),
+                        );
+                    }
+                    self.requeue_watch.remove(&t);
+                }
+                _ => {
+                    // placed again
+                    self.count("loss.redirect_reserved_task_placed_again", 1);
+                    self.requeue_watch.remove(&t);
+                }
             }
         }
     }
@@ -2137,6 +2235,8 @@ impl Monitors {
         self.credit.clear();
         self.canceled_on.clear();
         self.retract_confirmed.clear();
+        self.requeue_watch.clear();
+        self.last_end_on.clear();
         self.exec_instances.clear();
         self.mn_sets.clear();
         self.journal_seq.clear();
